@@ -12,7 +12,8 @@ CHECKS = {
              "schedules): BFS over {every action index, reset(), reset(seed)} and all executions with <=k departures from a default "
              "script that crosses truncation, one step beyond it and a second episode. The step/reset contract (no exception, obs, "
              "finite reward, terminated False, truncated iff steps>=max, exactly one tick, one history item and response per agent, "
-             "info lists every agent, reset => tick 0 / empty history / zero reward / new game) is evaluated on every transition.",
+             "info lists every agent, reset => tick 0 / empty history / zero reward / new game) is evaluated on every transition."
+             " Also: default scripts that open remote/local sessions (on a server and on the gateway device) and idle past the 30-step time-out, the insider scenario's first steps with every interfering blue action, a power cycle of the threat actor's host at every step, and one whole kill chain after the database client was removed.",
         note="Seeded RNG streams (one stream per history); bounds (depth, horizon, k) per harness in the evidence file.",
         design_ref="DESIGN.md §4 C01",
     ),
@@ -22,7 +23,8 @@ CHECKS = {
              "constancy of observation/action space across episodes; plus, at component level, every source leaf of a real "
              "describe_state() (every enum value read from the simulator at run time, every count 0..12 and 100, traffic/load from 0 "
              "to 10x nominal, ACL rules with listed/unlisted fields, sessions 0..9, component absent) crossed with every power state of "
-             "the owning node, observe() checked against the declared space.",
+             "the owning node, observe() checked against the declared space."
+             " GEN includes per-host option overrides, duplicated list entries, explicit router port lists, empty traffic mappings; a depth-2/3 BFS drives the file-system bookkeeping behind the counted leaves (delete/restore through actions and terminal commands).",
         note="Component level drives one leaf at a time (plus owner power state), not all pairs.",
         design_ref="DESIGN.md §4 C02",
     ),
@@ -47,7 +49,8 @@ CHECKS = {
              "from the observation configuration and the LIVE simulator objects (hostnames, software names, folder/file names, ACL slots, "
              "link endpoints; never describe_state) with the documented encoding and compared: enum values, visible vs true health per "
              "requires_scan, threshold bins, zero/default for absent components and everything under a node that is not ON, NMNE as "
-             "per-observation increase, ACL id maps, link/traffic bins.",
+             "per-observation increase, ACL id maps, link/traffic bins."
+             " GEN includes per-host scan-flag overrides and explicit router port lists; a BFS crosses sessions on the gateway device with its power states.",
         note="Encoding conventions listed in the evidence file's assumptions (incl. FTP services reporting STOPPED unless active this step).",
         design_ref="DESIGN.md §4 C09",
     ),
@@ -59,7 +62,8 @@ CHECKS = {
              "evaluation order checked dependencies-first, totals checked. On GEN members carrying every shipped component (sticky and "
              "non-sticky, several weights, blue sharing green) and on data_manipulation, after every explored step each component is "
              "recomputed by a reference model from live objects and the agent's own last action/response: current = sum(w*c), total = sum, "
-             "env reward = blue's reward, history reward = step reward.",
+             "env reward = blue's reward, history reward = step reward."
+             " GEN rewards include components watching another node than the agent's actions address, an option-less weighted component, and a use/remove/re-install script for the watched application.",
         note="Reference component semantics follow rewards.py docstrings; sticky memory is modelled in lock-step.",
         design_ref="DESIGN.md §4 C10",
     ),
@@ -69,7 +73,8 @@ CHECKS = {
              "applications are reached), after every explored step/reset every entry of the action mask is compared with an independent "
              "walk of the live request tree that evaluates every validator along the action's path (missing key => 0); for the executed "
              "action a class-level monitor on RequestManager.__call__ records where the request was turned away: masked-out => never "
-             "reaches a handler / never success, allowed => not refused by a permission rule.",
+             "reaches a handler / never success, allowed => not refused by a permission rule."
+             " Also: default scripts that start with a timed operation (restart, install, shutdown, fix, reset, delete+restore) with one deviation in every later step; the verdict must not change between the mask and the moment the agents act; one game with two masked agents whose action maps differ, joint actions to depth 2 (3).",
         note="Validators are assumed pure (evaluated an extra time by walker and monitor).",
         design_ref="DESIGN.md §4 C11",
     ),
@@ -81,7 +86,8 @@ CHECKS = {
              "injected at the node's interface. A reference power state machine (timing convention of base_hardware.rst) is stepped in "
              "lock-step; in every state: not ON => interfaces disabled, nothing emitted or processed (monitors on send_frame/receive_frame/"
              "session manager), every request but start-up refused, pings fail; OFF => no software running; back ON => interfaces and "
-             "previously running software up. Thorough empties the frontier for every type (whole reachable space of the menu).",
+             "previously running software up. Thorough empties the frontier for every type (whole reachable space of the menu)."
+             " Events include direct NetworkInterface.enable() calls on every interface of the node under test.",
         note="Requests/ticks/frames only; direct Python-API calls of power_on/power_off/reset are outside the property's quantifier (optional VERIF_C12_API=1).",
         design_ref="DESIGN.md §4 C12",
     ),
@@ -93,7 +99,8 @@ CHECKS = {
              "a payload it understands. A reference state machine written from action_masking.rst/software.rst is stepped in lock-step "
              "(acceptance exactly in documented source states, restart on tick duration+1, install on tick duration, power effects); "
              "not running => no open port, receive() neither handles nor changes the instance nor emits a frame; after every event "
-             "software_manager.software, node.services/applications, request routes, describe_state keys and port_protocol_mapping agree.",
+             "software_manager.software, node.services/applications, request routes, describe_state keys and port_protocol_mapping agree."
+             " Searches also start from non-initial states: a service restarted once, and a restart cut short by disable/enable/start.",
         note="Restart/installation timing conventions per DESIGN.md §2; execute/fix statuses are not judged.",
         design_ref="DESIGN.md §4 C13",
     ),
@@ -106,7 +113,8 @@ CHECKS = {
              "implementation's countdown fields: visible health changes only in a transition that completes a scan covering the item and "
              "then equals the true health; true health changes only by an explicit event on the item or its timed completion; fix, folder "
              "scan, folder restore and node scan are due exactly on their configured step; the real Service/Application/File/Folder "
-             "observation classes with requires_scan show the same.",
+             "observation classes with requires_scan show the same."
+             " A second adapter checks fix timing for EVERY class of the run-time registries under every lifecycle request, attack and node power event; searches also start with operations under way (node scan inside a folder scan's window, fixes one step in).",
         note="Duration 0 is accepted as instant or first step; a repeated os-scan request may join or restart the scan (the statement is silent); timers count steps with the node ON.",
         design_ref="DESIGN.md §4 C14",
     ),
@@ -116,7 +124,8 @@ CHECKS = {
              "2-folder x 2-file alphabet (plus ticks) is executed on a real Computer's FileSystem inside a real Simulation; "
              "states are de-duplicated by a canonical form and the structural invariants (unique live names, live xor deleted, "
              "flag agreement, exact reported state, zero counters at tick start, deleted items unavailable, no exception) are "
-             "evaluated after every transition.",
+             "evaluated after every transition."
+             " Searches also start from non-initial states (a name deleted and created again; a deleted folder holding live and deleted files) and include node power events and the flat file/<name>/<verb> route.",
         note="Bounded: names {f1,f2}x{a.txt,b.txt}, depth per harness in the evidence file; CPython/pydantic trusted.",
         design_ref="DESIGN.md §4 C15",
     ),
@@ -128,7 +137,8 @@ CHECKS = {
              "16) combinations of identifier streams (uuid, MAC, 1-digit vs 5-digit ICMP ids), clocks (ticking / frozen at microsecond 0) "
              "and logging (off / sys+pcap+agent logs at DEBUG). Per-step digests of nested observation, reward and every agent's action, "
              "parameters, request, response status and data (ids normalised, dict order ignored, list order kept) must be identical in "
-             "all worlds, and reset(seed) must reproduce the first episode.",
+             "all worlds, and reset(seed) must reproduce the first episode."
+             " Programs also cover a GEN member with duplicated observation-list entries, and episode schedules (generated with a router, shipped) gone through more than twice: episode e+n must repeat episode e.",
         note="A finite set of hash seeds and streams, not all of them; torch's RNG is not involved (the environment uses it for nothing).",
         design_ref="DESIGN.md §4 C03",
     ),
@@ -140,7 +150,8 @@ CHECKS = {
              "simulation component, agent or manager reachable from the new game may be reachable from the old one. Instance isolation: "
              "programs A=[new,reset,step*n] and B=[new,reset,step*m,close] under ALL order-preserving interleavings for pairs of equal, "
              "differently configured (NMNE off, other topology/flags) and stochastic scenarios; A must behave as when run alone. Episode "
-             "schedules: a scheduled episode after dirty earlier episodes equals the same episode after clean ones.",
+             "schedules: a scheduled episode after dirty earlier episodes equals the same episode after clean ones."
+             " Every digest includes the action mask; masks are additionally compared with an independent walk of the same instance's request tree (a reference a process-wide cache cannot spoil); a whole insider-scenario episode followed by reset is compared with a fresh environment for 45 steps.",
         note="'Newly constructed' = fresh environment object brought to the episode by reset(seed). Two design-level defects are recorded as known findings (class-level NMNE configuration, process-wide RNGs).",
         design_ref="DESIGN.md §4 C04",
     ),
@@ -151,7 +162,8 @@ CHECKS = {
              "single-element mutations (element deleted or misspelt at each depth) are classified by an independent walker; every "
              "request classified missing/refused is executed: answer must be unreachable / failure-with-reason, never success, never "
              "an exception, and deep canonical state + describe_state must be unchanged. Every registered action type aimed at "
-             "existing components is executed in a forked snapshot: never unreachable, never raises, documented status.",
+             "existing components is executed in a forked snapshot: never unreachable, never raises, documented status."
+             " Tree-changing events include Python-API install/uninstall/delete/restore and scenarios with nodes declared OFF; parameter-addressed file-system requests on deleted/missing targets must not succeed; no request manager reachable in the live tree may belong to a removed component.",
         note="Requests whose parameters (not path keys) are missing are classed malformed and not executed; handler-reaching raw paths are executed only when formed by an action class.",
         design_ref="DESIGN.md §4 C05",
     ),
@@ -175,7 +187,8 @@ CHECKS = {
              "assignment to the first/second/last slot, under both implicit actions, is evaluated against all 81 packets of a covering set on "
              "real AccessControlList objects; verdict, deciding slot and all hit counters are compared with an independent integer-arithmetic "
              "reference. Add/remove sequences are explored by BFS through the Python API, the request tree of a real Router and the ACL action "
-             "classes against a reference slot list; Router.from_config placement is compared too.",
+             "classes against a reference slot list; Router.from_config placement is compared too."
+             " Rules include non-contiguous wildcard masks; a witness list's counters must stay untouched by other lists' verdicts; operation BFS also starts from a list that already holds rules and has judged packets.",
         note="Covering set of addresses/ports, not all 2^32; port 0 (PORT_LOOKUP NONE) is read as 'unspecified'.",
         design_ref="DESIGN.md §4 C07",
     ),
@@ -189,7 +202,8 @@ CHECKS = {
              "stepped in lock-step: logins succeed only with the current password of an existing enabled account on an ON node below the "
              "limit; a marker file appears only for a command on a session the model holds live; logout, time-out and password change "
              "end the session; the last enabled admin is never disabled; describe_state session fields agree with the model; time-out "
-             "processing never raises.",
+             "processing never raises."
+             " Includes harnesses whose local and remote time-outs differ.",
         note="Only the 'only' directions of the statement are judged. Sessions surviving a terminal restart / instantaneous reboot follow the code (the statement names logout, time-out and password change as session enders).",
         design_ref="DESIGN.md §4 C16",
     ),
@@ -202,7 +216,8 @@ CHECKS = {
              "and backup health is stepped in lock-step: a connection opens only for the right password on a RUNNING service on an ON "
              "node below capacity with the path open; queries run only on issued, unclosed connections; DELETE => COMPROMISED, ENCRYPT => "
              "CORRUPT; SELECT of compromised data fails; restore of a healthy backup => GOOD; blocked/stopped/off => nothing succeeds and "
-             "server state is unchanged; server-side connections and file health equal the model after every transition.",
+             "server state is unchanged; server-side connections and file health equal the model after every transition."
+             " Includes a session limit of 0.",
         note="Only the 'only if' directions of the statement are judged (a refused permitted connect is not a violation).",
         design_ref="DESIGN.md §4 C17",
     ),
@@ -213,7 +228,8 @@ CHECKS = {
              "database request/reply, FTP bulk put, DoS burst, interface toggles and ticks, plus fixed long scripted histories as vacuity "
              "witnesses. A monitor on Link.can_transmit_frame/transmit_frame/endpoint_down and AirSpace checks after every transmission "
              "and at every state: load <= capacity, both ends enabled at transmission, per-tick carried total <= capacity, loads zero after "
-             "pre_timestep, describe_state loads equal the real ones.",
+             "pre_timestep, describe_state loads equal the real ones."
+             " Bandwidth factors include less than one frame (0.5) and, for the wireless channel, 0.",
         note="Seams fix frame sizes (counter-based secrets, fixed clock). 'Carried' = frames the receiving interface accepted or all frames put on an up link (both conventions accepted).",
         design_ref="DESIGN.md §4 C18",
     ),
@@ -228,7 +244,8 @@ CHECKS = {
              "index-aligned with the action map for every key order; the action is the sampled index's entry. TAP001/TAP003 on the "
              "shipped UC7 scenarios with probabilities 0.5, variance 1 and both repeat settings: all executions with <=k non-default RNG "
              "answers / blue interference actions; kill-chain stage sampled after every step must move in order without skipping, fail "
-             "only when stage repetition is off, restart only when repeat_kill_chain is set, and respect start and minimum gap.",
+             "only when stage repetition is off, restart only when repeat_kill_chain is set, and respect start and minimum gap."
+             " Threat-actor runs include a retry harness (failed stages repeated), a second kill-chain pass, and the clause that host actions are issued only from the configured start nodes.",
         note="numpy never returning a p=0 index is trusted; threat-actor upper gap bounds are not checked.",
         design_ref="DESIGN.md §4 C19",
     ),
@@ -241,7 +258,8 @@ CHECKS = {
              "every list, exactly one instance per configured software with its options and listen ports, users, folders/files, agents "
              "(action maps, reward components, settings, probability vector alignment), airspace capacities - also for the same file with "
              "every mapping in reverse key order. The seeded 8-step trajectory of YAML-re-serialised, all-reversed and all-sorted copies "
-             "must equal the original's (a differing mapping is localised by reversing one mapping at a time).",
+             "must equal the original's (a differing mapping is localised by reversing one mapping at a time)."
+             " Variants: default route only / routes only (router and firewall), top-level defaults section (0 and non-zero), office-LAN node sets (one and two edge switches, non-default bandwidth), reversed software order with per-item options, shared option mappings, duplicate routes.",
         note="The order oracle compares nested observations, rewards and agent actions; the position of entries inside the flattened vector (follows the written order of e.g. monitored_traffic) is not compared.",
         design_ref="DESIGN.md §4 C20",
     ),
